@@ -70,12 +70,21 @@ class Builder:
         lines = [self.docline(self.rng, uid, k) for k in range(n)]
         if self.p_trigger and self.rng.random() < self.p_trigger and self.trigger:
             lines.append(f"{{L{uid}.{n}}} {self.trigger} FOO: something")
+        elif self.p_trigger and self.rng.random() < self.p_trigger and self.trigger:
+            # near misses: a single word of a trigger that contains blanks, the trigger without its last character,
+            # the trigger in another letter case -- none of them is the configured string
+            parts = self.trigger.split()
+            near = [self.trigger[:-1], self.trigger.swapcase()] + (parts if len(parts) > 1 else [])
+            near = [x for x in near if x and self.trigger not in x]
+            if near:
+                lines.append(f"{{L{uid}.{n}}} " + " | ".join(self.rng.sample(near, min(len(near), 2))) + " is not the trigger")
         return lines
 
     def simple_value(self):
         r = self.rng
         return r.choice(["ON", "OFF", "1", "abc", '"a b"', '"x"', "${VAR}", "[[br]]", "a.b", "-DFOO=1", '""',
-                         "lib/foo.cmake", "$ENV{HOME}", '"semi;colon"', "[=[a]b]=]", "TRUE"])
+                         "lib/foo.cmake", "$ENV{HOME}", '"semi;colon"', "[=[a]b]=]", "TRUE", '"two  blanks   here"',
+                         '"tab\there"', "[[a   b]]", '"  lead and trail  "'])
 
     def params(self, uid, kind, lo=0, hi=4):
         """-> (written list, expected list)"""
@@ -205,11 +214,12 @@ class Builder:
         uid = self.new_uid()
         nm = self.name("ctN", uid)
         rest = ["COMMAND", r.choice(["exe", "${exe}", '"my exe"']), *[self.simple_value() for _ in range(r.randint(0, 2))]]
-        if r.random() < 0.5:
+        if r.random() < 0.8:
             args = ["NAME", nm] + rest
         else:
-            args = [nm] + rest           # old-style add_test(name cmd...) is not asserted on name
-            args = ["NAME", nm] + rest
+            # CMake's short signature add_test(<name> <command> [args...]): still exactly one entry
+            rest = [a for a in rest if a != "COMMAND"]
+            args = [nm] + rest
         return Item("add_test", "add_test", args, uid, doc=self.doc(uid), name=nm, rest=rest)
 
     def ct_test(self, depth, section=False):
